@@ -182,4 +182,75 @@ def receiveLoop (key : Bytes) : Nat → Bytes → Outcome → Outcome
 `s.length + 1` iterations are enough) -/
 def parse (key : Bytes) (s : Bytes) : Outcome := receiveLoop key (s.length + 1) s Outcome.init
 
+/-! ## several threads sending to one session
+
+`SessionManager::send` may be called for one peer from several threads (reader threads answering
+requests, the tick and control threads).  Each call builds its frame privately and then runs
+`send_all(session->socket, …)`, a loop of `::send` calls; for a stream socket the kernel decides
+how many bytes each call takes, so a frame reaches the socket as a sequence of *pieces* chosen by
+the environment.  Threads are interleaved by an arbitrary schedule.  With the per-session
+`send_mutex` (held around `send_all`, flag `Gen.C14.sendHoldsSessionLock`) a thread that wants to
+start writing waits while another thread is inside `send_all`. -/
+
+/-- one `send()` call: its arguments, the nonce it draws, and the pieces in which the kernel will
+take its frame -/
+structure SendCall where
+  nonce : Bytes
+  payload : Bytes
+  pieces : List Bytes
+deriving DecidableEq, Repr
+
+/-- the pieces are a cutting of the frame `send` builds for these arguments -/
+def SendCall.wellSplit (key : Bytes) (c : SendCall) : Prop := c.pieces.flatten = encodeFrame key c.nonce c.payload
+
+instance (key : Bytes) (c : SendCall) : Decidable (c.wellSplit key) := by unfold SendCall.wellSplit; exact inferInstance
+
+/-- pointwise update of a per-thread table -/
+def upd {α : Type} (f : Nat → α) (i : Nat) (v : α) : Nat → α := fun j => if j = i then v else f j
+
+structure Senders where
+  /-- per thread: the `send()` calls it has not started yet, in program order -/
+  todo : Nat → List SendCall
+  /-- per thread: the pieces its current `send_all` still has to write (`[]`: not inside `send_all`) -/
+  cur : Nat → List Bytes
+  /-- owner of the session's `send_mutex` -/
+  holder : Option Nat
+  /-- the bytes written to the socket so far, in order -/
+  wire : Bytes
+
+def Senders.init (calls : Nat → List SendCall) : Senders :=
+  { todo := calls, cur := fun _ => [], holder := none, wire := [] }
+
+/-- the scheduler lets thread `i` run until its next interaction with the session's socket or lock.
+`locked = true`: `send()` takes `send_mutex` before `send_all` and releases it afterwards. -/
+def Senders.step (locked : Bool) (s : Senders) (i : Nat) : Senders :=
+  match s.cur i with
+  | w :: ws =>
+    -- inside send_all: one more `::send` call; after the last piece the lock (if any) is released
+    { s with cur := upd s.cur i ws, wire := s.wire ++ w,
+             holder := if ws.isEmpty then none else s.holder }
+  | [] =>
+    match s.todo i with
+    | [] => s                                             -- this thread has nothing more to send
+    | c :: more =>
+      if locked && s.holder.isSome then s                 -- waits for send_mutex
+      else if c.pieces.isEmpty then { s with todo := upd s.todo i more }
+      else { s with todo := upd s.todo i more, cur := upd s.cur i c.pieces,
+                    holder := if locked then some i else s.holder }
+
+def Senders.run (locked : Bool) (s : Senders) (sched : List Nat) : Senders := sched.foldl (Senders.step locked) s
+
+/-- the code as it is: whether `send()` holds the lock is read off the source -/
+def Senders.runAsCoded (s : Senders) (sched : List Nat) : Senders := Senders.run C14.sendHoldsSessionLock s sched
+
+/-- every thread has returned from all its `send()` calls -/
+def Senders.Done (s : Senders) : Prop := ∀ i, s.todo i = [] ∧ s.cur i = []
+
+/-- `l` is an interleaving of the per-thread lists `t`: every element of every thread exactly once,
+each thread's elements in that thread's order -/
+inductive Merge {α : Type} : (Nat → List α) → List α → Prop
+  | nil {t : Nat → List α} (h : ∀ i, t i = []) : Merge t []
+  | cons {t : Nat → List α} {l : List α} (i : Nat) (x : α) (rest : List α) (h : t i = x :: rest)
+      (m : Merge (upd t i rest) l) : Merge t (x :: l)
+
 end EphVerif.Frames
